@@ -41,6 +41,7 @@ import PS.Proofs.TtcfgSat
 import PS.Proofs.TtcfgBuild
 import PS.Proofs.TtcfgCleanLang
 import PS.Proofs.TtcfgBuildTerm
+import PS.Proofs.TtcfgCountS
 namespace PS.T
 open PS PS.G
 
@@ -657,5 +658,72 @@ example : satBound (int.arguments.length + small.prims.length) (3 + 1) = 31 ∧
     (saturationTable (atMostBuilder small 2 "+" 1) small.prims int true
       (satBound (int.arguments.length + small.prims.length) (1 * (totalArity small + 1)))).isSome = true := by
   decide +kernel
+
+/-! ### `programs()` -/
+
+/-- **`programs()` with the proposed repair C13-F5 is the size of the language - of EVERY table**
+    whose rows are dicts and that uses the end-marker type `UnknownType` neither as a non-terminal
+    nor as an argument slot (three decidable hypotheses; no certificate, no closedness, cleaned
+    or not): whenever it returns `n`, the programs of the grammar are listed once each by `langOf`
+    and there are `n` of them.  (The code as it is: `C13_count_partial`, `finding_C13_F5`.) -/
+theorem C13_programs {S T : Type} [DecidableEq S] [DecidableEq T] (G : TT S T) (hr : rowsNodup G = true)
+    (hU : noUnknownKey G = true) (hA : noUnknownArg G = true) (fuel n : Nat) (hp : programsR G fuel = some n) :
+    ∃ L : List Prog, L.Nodup ∧ n = L.length ∧ ∀ t, t ∈ L ↔ PS.G.contains G t = true := by
+  obtain ⟨h1, h2, h3⟩ := programsR_count G hr hU hA fuel n hp
+  exact ⟨langOf G fuel, h1, h2, fun t => by rw [h3 t, C13_contains_run]⟩
+
+/-- **the reported number of programs of a size-bounded grammar** (construction as it is now,
+    `programs()` as repaired): `n` = the number of well-typed programs with at most `k` nodes and
+    no forbidden pattern. -/
+theorem C13_count_size (dsl : Dsl) (hwf : wfDsl dsl = true) (request : Ty) (hU : noUnknownDsl dsl request = true)
+    (k : Nat) (nG : Int) (hn : nG ≥ 2 ∨ nG < 0) (fuel : Nat) (g : TTG Ctx (Nat × Nat))
+    (h : sizeConstraint dsl request k nG true true fuel = .ok g) (fuel' n : Nat) (hp : programsR g.G fuel' = some n) :
+    ∃ L : List Prog, L.Nodup ∧ n = L.length ∧ ∀ t, t ∈ L ↔ Sized dsl request k t = true := by
+  have hlang := C13_size dsl hwf request hU k nG hn fuel g h
+  unfold sizeConstraint at h
+  cases h0 : saturationTable (sizeBuilder dsl nG k true) dsl.prims request true fuel with
+  | none => simp [h0] at h
+  | some G0 =>
+    simp only [h0] at h
+    cases h1 : clean G0 fuel with
+    | ok G =>
+      simp only [h1, Res.ok.injEq] at h
+      subst h
+      obtain ⟨_, s2, s3⟩ := saturation_countHyps _ dsl request true fuel G0 hU h0
+      obtain ⟨c1, c2, c3⟩ := clean_countHyps G0 G s2 s3 fuel h1
+      obtain ⟨L, l1, l2, l3⟩ := C13_programs G c1 c2 c3 fuel' n hp
+      exact ⟨L, l1, l2, fun t => by rw [l3 t, hlang t]⟩
+    | fuel => simp [h1] at h
+    | keyError => simp [h1] at h
+
+/-- … and of an occurrence-bounded grammar -/
+theorem C13_count_atmost (dsl : Dsl) (hwf : wfDsl dsl = true) (request : Ty) (hU : noUnknownDsl dsl request = true)
+    (name : String) (k : Nat) (nG : Int) (hn : nG ≥ 2 ∨ nG < 0) (fuel : Nat) (g : TTG Ctx Nat)
+    (h : atMostK dsl request name k nG true fuel = .ok g) (fuel' n : Nat) (hp : programsR g.G fuel' = some n) :
+    ∃ L : List Prog, L.Nodup ∧ n = L.length ∧ ∀ t, t ∈ L ↔ AtMostOcc dsl request name k t = true := by
+  have hlang := C13_atmost dsl hwf request hU name k nG hn fuel g h
+  unfold atMostK at h
+  cases h0 : saturationTable (atMostBuilder dsl nG name k) dsl.prims request true fuel with
+  | none => simp [h0] at h
+  | some G0 =>
+    simp only [h0] at h
+    cases h1 : clean G0 fuel with
+    | ok G =>
+      simp only [h1, Res.ok.injEq] at h
+      subst h
+      obtain ⟨_, s2, s3⟩ := saturation_countHyps _ dsl request true fuel G0 hU h0
+      obtain ⟨c1, c2, c3⟩ := clean_countHyps G0 G s2 s3 fuel h1
+      obtain ⟨L, l1, l2, l3⟩ := C13_programs G c1 c2 c3 fuel' n hp
+      exact ⟨L, l1, l2, fun t => by rw [l3 t, hlang t]⟩
+    | fuel => simp [h1] at h
+    | keyError => simp [h1] at h
+
+open Ex in
+/-- non-vacuity, and the repair at work on the witness of C13-F5 (f : a → b → c, b uninhabited):
+    the cleaned table keeps the rule `f`, `programs()` as it is reports 2, repaired 1 = |{k}| -/
+example : noUnknownDsl unin c = true ∧ wfDsl unin = true ∧
+    onTable (sizeConstraint unin c 4 2 true true 1000) (fun G =>
+      rowsNodup G && noUnknownKey G && noUnknownArg G &&
+      programs G 20 == some 2 && programsR G 20 == some 1 && (langOf G 20).length == 1) = true := by decide +kernel
 
 end PS.T
